@@ -11,6 +11,7 @@ import (
 	"context"
 	"errors"
 	"fmt"
+	"os"
 	"sync"
 	"time"
 
@@ -33,8 +34,24 @@ var errSyncHang = errors.New("sync exchange did not return")
 // kvServer is the space RPC server of one side; it routes to the service of the case that is running.
 type kvServer struct {
 	spacesyncproto.DRPCSpaceSyncUnimplementedServer
-	mu  sync.Mutex
-	svc *keyvalue.VerifService
+	mu      sync.Mutex
+	svc     *keyvalue.VerifService
+	running sync.WaitGroup // StoreElements handlers in flight
+	lastErr error          // result of the last StoreElements handler
+}
+
+func (s *kvServer) setErr(err error) {
+	s.mu.Lock()
+	s.lastErr = err
+	s.mu.Unlock()
+}
+
+func (s *kvServer) takeErr() error {
+	s.mu.Lock()
+	defer s.mu.Unlock()
+	err := s.lastErr
+	s.lastErr = nil
+	return err
 }
 
 func (s *kvServer) get() *keyvalue.VerifService {
@@ -57,7 +74,12 @@ func (s *kvServer) StoreDiff(c context.Context, req *spacesyncproto.StoreDiffReq
 	return svc.HandleStoreDiffRequest(c, req)
 }
 
-func (s *kvServer) StoreElements(stream spacesyncproto.DRPCSpaceSync_StoreElementsStream) error {
+func (s *kvServer) StoreElements(stream spacesyncproto.DRPCSpaceSync_StoreElementsStream) (err error) {
+	// the responder applies the pushed values AFTER it has streamed its answer, i.e. possibly after the initiator's
+	// syncWithPeer has returned: the exchange is over when this handler has returned (realSync waits for it)
+	s.running.Add(1)
+	defer s.running.Done()
+	defer func() { s.setErr(err) }()
 	svc := s.get()
 	if svc == nil {
 		return errors.New("no service")
@@ -70,7 +92,16 @@ func (s *kvServer) StoreElements(stream spacesyncproto.DRPCSpaceSync_StoreElemen
 	if msg.SpaceId != verifSpaceId {
 		return fmt.Errorf("unexpected space id %q", msg.SpaceId)
 	}
-	return svc.HandleStoreElementsRequest(stream.Context(), stream)
+	// Context: the package's own fixtures hand the handler a context that is NOT tied to the stream, and so does this
+	// stand-in. With stream.Context() the outcome is a race on the unchanged tree: the initiator closes the stream as
+	// soon as it has read the terminator, which cancels the context while the responder is still in
+	// SetRaw(messagesToSave...) — observed 3 times in 8 runs: the handler fails ("any-store: db is closed") and the
+	// pushed values are dropped (see notes/C12.md, observation O1).
+	hctx := ctx
+	if os.Getenv("C12_STREAM_CTX") != "" {
+		hctx = stream.Context()
+	}
+	return svc.HandleStoreElementsRequest(hctx, stream)
 }
 
 // netH: two sides, each with its RPC server, connected by one multi-connection pair; peers[i] is side i's view of
@@ -109,6 +140,7 @@ func newNet() *netH {
 func (n *netH) realSync(svcs [2]*keyvalue.VerifService, who int) (err error, hang bool) {
 	n.srv[0].set(svcs[0])
 	n.srv[1].set(svcs[1])
+	n.srv[1-who].takeErr()
 	c, cancel := context.WithTimeout(ctx, syncTimeout)
 	defer cancel()
 	done := make(chan error, 1)
@@ -125,10 +157,21 @@ func (n *netH) realSync(svcs [2]*keyvalue.VerifService, who int) (err error, han
 		if err != nil && c.Err() != nil {
 			return errSyncHang, true
 		}
-		return err, false
 	case <-time.After(syncTimeout + 20*time.Second):
 		return errSyncHang, true
 	}
+	// the responder's handler (its start happens before the initiator sees any answer) must have returned too
+	idle := make(chan struct{})
+	go func() { n.srv[1-who].running.Wait(); close(idle) }()
+	select {
+	case <-idle:
+	case <-time.After(syncTimeout):
+		return errSyncHang, true
+	}
+	if herr := n.srv[1-who].takeErr(); err == nil && herr != nil {
+		err = fmt.Errorf("responder: %w", herr)
+	}
+	return err, false
 }
 
 // ------------------------------------------------------------------------------------------------ large batches
